@@ -128,13 +128,16 @@ def writer_round_trip(report, folder):
         tables.append([[rng.choice(pool) + rng.choice(["", "z"]) for _ in range(width)] for _ in range(rng.randrange(0, 6))])
     for index, table in enumerate(tables):
         path = os.path.join(folder, "w%d.xlsx" % index)
-        with rowio.XlsxRowWriter(path) as writer:
-            writer.write_rows(table)
-        back = list(rowio.excel_rows(path))
+        try:
+            with rowio.XlsxRowWriter(path) as writer:
+                writer.write_rows(table)
+            back = list(rowio.excel_rows(path))
+        except Exception as error:  # noqa -- writing and reading back a table of strings must not fail
+            back = "%s: %s" % (type(error).__name__, error)
         report.replayed += 1
         if back != table:
             report.violation("c16", {"writer_table": table}, table, back,
-                             "XlsxRowWriter: table %r reads back as %r" % (_short(table), _short(back)))
+                             "XlsxRowWriter: table %r reads back as %r" % (_short(table), back if isinstance(back, str) else _short(back)))
             break
         os.remove(path)
     # a row is any sequence of items: tuples and one-shot iterables are written like lists
